@@ -363,6 +363,7 @@ class Interp:
         self.while_bound = while_bound
         self.max_steps = max_steps
         self.max_recursion = 1
+        self.wrap_errortrace = False
         # per path state
         self.prefix: List[int] = []
         self.trace: List[Tuple[int, int]] = []
@@ -1383,6 +1384,13 @@ class Interp:
                 self.exec_block(fnode.body, env)
             except _Return as r:
                 return r.value
+            except Raised as r:
+                if self.wrap_errortrace and fr.fi is not None and fr.fi.cls is not None and not fr.fi.name.startswith('_') \
+                        and self.repo.metaclass_of(fr.fi.cls.qualname) == 'pytezos.michelson.micheline.ErrorTrace' \
+                        and not self.exc_is_subclass(r.exc.cls, 'pytezos.michelson.micheline.MichelsonRuntimeError'):
+                    # ErrorTrace wraps every public method: any Exception leaves as MichelsonRuntimeError
+                    raise Raised(ExcVal('pytezos.michelson.micheline.MichelsonRuntimeError', (r.exc.cls,) + tuple(r.exc.args), origin=r.exc.origin))
+                raise
             return None
         finally:
             self.depth -= 1
